@@ -291,6 +291,102 @@ fn alpha_rename(a: &RAst, scope: &mut Vec<(String, String, bool)>, counter: &mut
     }
 }
 
+
+// ---------------------------------------------------------------- bodies that reach X through a definition
+
+fn subst_ref(a: &RAst, name: &str, repl: &RAst) -> RAst {
+    match a {
+        RAst::Ref(n) if n == name => repl.clone(),
+        RAst::Not(b) => RAst::not(subst_ref(b, name, repl)),
+        RAst::Bin(op, l, r) => RAst::bin(*op, subst_ref(l, name, repl), subst_ref(r, name, repl)),
+        RAst::Ite(c, t, e) => RAst::Ite(
+            Box::new(subst_ref(c, name, repl)),
+            Box::new(subst_ref(t, name, repl)),
+            Box::new(subst_ref(e, name, repl)),
+        ),
+        RAst::Quant(ex, ns, b) => RAst::Quant(*ex, ns.clone(), Box::new(subst_ref(b, name, repl))),
+        RAst::Fix(n, g, b) => RAst::Fix(n.clone(), *g, Box::new(subst_ref(b, name, repl))),
+        RAst::CountConst(op, l, c) => RAst::CountConst(*op, l.iter().map(|f| subst_ref(f, name, repl)).collect(), *c),
+        RAst::CountList(op, l, r) => RAst::CountList(
+            *op,
+            l.iter().map(|f| subst_ref(f, name, repl)).collect(),
+            r.iter().map(|f| subst_ref(f, name, repl)).collect(),
+        ),
+        other => other.clone(),
+    }
+}
+
+/// `main` mentions `{d}`; `d` is defined through the library API (`ParsedFormula::define`, syntax
+/// contents) as the formula `def`, which may mention the fixed-point name of `main`. A definition is
+/// expanded where it is used, so the answer must be the one of `main` with `def` written in place
+/// of `{d}` (reference semantics of the inlined text).
+pub fn check_definition(main: &str, def: &str) -> Check {
+    let cj = json!({"kind": "fix-through-definition", "main": main, "def": def});
+    let v = |m: String| Violation::new(m, cj.clone());
+    let pm = rparse::parse_text(main.as_bytes()).map_err(|e| v(format!("HARNESS: reference parser (main): {}", e)))?;
+    let pd = rparse::parse_text(def.as_bytes()).map_err(|e| v(format!("HARNESS: reference parser (def): {}", e)))?;
+    let inlined = subst_ref(&pm.ast, "d", &pd.ast);
+    let mut names = rlex::identifiers(&pm.tokens);
+    for n in rlex::identifiers(&pd.tokens) {
+        if !names.contains(&n) {
+            names.push(n);
+        }
+    }
+    let oracle = match crate::rsem::table(&inlined, &names) {
+        Ok(t) => t,
+        Err(e) => return Err(v(format!("HARNESS: reference semantics of the inlined text: {:?}", e))),
+    };
+    let ordering: Vec<rsbdd::NamedSymbol> = names.iter().enumerate().map(|(i, n)| front::sym(n, i)).collect();
+    guarded(&cj.clone(), || {
+        let pf = front::parse(main.as_bytes(), Some(ordering.clone())).map_err(|e| v(format!("main formula rejected: {}", e)))?;
+        let dpf = front::parse(def.as_bytes(), Some(ordering.clone())).map_err(|e| v(format!("definition rejected: {}", e)))?;
+        pf.define("d", rsbdd::parser::ReferenceContents::Syntax(dpf.bdd.clone()));
+        rsbdd::bdd::verif_hooks::set_fp_iteration_limit(Some((1usize << names.len()) + 2));
+        let r = crate::util::catch(|| pf.eval());
+        rsbdd::bdd::verif_hooks::set_fp_iteration_limit(None);
+        let r = r.map_err(|p| v(format!("evaluation panicked: {}", p)))?;
+        let got = front::table_by_name(&r, &names).map_err(|e| v(e))?;
+        if got != oracle {
+            return Err(v(format!(
+                "`{}` with d := `{}` evaluates to {} but the text with the definition written out, `{}`, denotes {} (over {:?})",
+                main,
+                def,
+                got.to_hex(),
+                rprint::plain(&inlined),
+                oracle.to_hex(),
+                names
+            )));
+        }
+        Ok(())
+    })
+}
+
+const DEF_MAINS: [&str; 10] = [
+    "lfp X # (a | {d})",
+    "gfp X # (a & {d})",
+    "lfp X # ((a & b) | ({d} & c))",
+    "gfp X # ((a | b) & ({d} | c))",
+    "mu X # (a | (b & {d}))",
+    "nu X # (a & (b | {d}))",
+    "lfp X # (a | gfp Y # ({d} & Y))",
+    "lfp X # (a | exists X # {d})",
+    "lfp X # (a | forall b # ({d} | -b))",
+    "b & lfp X # (if a then true else {d})",
+];
+
+const DEF_BODIES: [&str; 10] = [
+    "X & b",
+    "b | X",
+    "X",
+    "c",
+    "exists b # (X & b)",
+    "if b then X else a",
+    "[X, a, b] >= 2",
+    "X & Y",
+    "-(-X | c)",
+    "lfp Y # (X | (Y & b))",
+];
+
 /// a formula with shadowing must mean the same as its alpha-renamed version (through rsbdd)
 pub fn check_scoping(text: &str) -> Check {
     let cj = json!({"kind": "scoping", "text": text});
@@ -529,6 +625,20 @@ pub fn run(ctx: &mut Ctx) -> Result<(), Violation> {
     });
     ctx.stage("scoping-alpha-renaming", false, r)?;
 
+    // bodies that reach the bound name through a definition made with `ParsedFormula::define`
+    let n = (DEF_MAINS.len() * DEF_BODIES.len()) as u64;
+    let r = par_exhaustive(ctx, n, |i, st| {
+        let main = DEF_MAINS[i as usize % DEF_MAINS.len()];
+        let def = DEF_BODIES[i as usize / DEF_MAINS.len()];
+        st.eval();
+        st.class("fixed-point-through-a-definition");
+        if def.contains('X') && st.nontrivial(fnv_str(&format!("{}|{}", main, def))) {
+            st.nt_sample(|| json!({"kind": "fix-through-definition", "main": main, "def": def}));
+        }
+        check_definition(main, def)
+    });
+    ctx.stage("fixed-points-through-definitions", true, r)?;
+
     // BDDEnv::fp against the index model
     let cases = ctx.tier.cases(20_000, 3_000_000);
     let r = par_random(ctx, "fp-api", cases, 20, |tape, st| {
@@ -573,6 +683,10 @@ pub fn run(ctx: &mut Ctx) -> Result<(), Violation> {
 pub fn replay(case: &Value) -> Check {
     match case["kind"].as_str() {
         Some("fix") => check_fix_text(case["text"].as_str().unwrap_or("")).map(|_| ()),
+        Some("fix-through-definition") => match (case["main"].as_str(), case["def"].as_str()) {
+            (Some(m), Some(d)) => check_definition(m, d),
+            _ => Err(Violation::new("unreadable replay case", case.clone())),
+        },
         Some("scoping") => check_scoping(case["text"].as_str().unwrap_or("")),
         Some("formula") => c01::replay(case),
         Some("fp-api") => {
